@@ -25,7 +25,9 @@
       LFailReady c  the deferred close(c.ready) of a failed dial
       LPass i       thread i leaves the schedule point `connection:joined`
       LWait i       `<-c.ready` succeeds and Connection returns
-      LRelease i    thread i calls the done function it was given
+      LRelBegin i   a goroutine calls the done function of thread i: the
+                    check-and-set of once.Do (any number of callers, any time)
+      LRelease i    the function under the Once: lock, ref--, remove at <= 0
       LCancel i     the context of thread i is cancelled
 
     Go maps and the heap are total functions nat -> option _ (executable under
@@ -67,7 +69,8 @@ Record thread := {
   t_addr : nat;
   t_obj : option nat;          (* the connection object joined (None: refused at the ctx check) *)
   t_pc : pc;
-  t_once : bool }.             (* the sync.Once of its done function has fired *)
+  t_run : bool;                (* some caller has entered once.Do of its done function (check + set) *)
+  t_once : bool }.             (* the function under the Once has run: c.ref was given back *)
 
 Record state := {
   conns : nat -> option nat;   (* m.conns : address -> connection object *)
@@ -117,8 +120,9 @@ Definition with_err o e := {| c_addr := c_addr o; c_ref := c_ref o; c_ready := c
 Definition with_cc o h := {| c_addr := c_addr o; c_ref := c_ref o; c_ready := c_ready o; c_err := c_err o;
   c_cc := Some h; c_known := c_known o; c_ds := c_ds o |}.
 
-Definition with_pc t p := {| t_addr := t_addr t; t_obj := t_obj t; t_pc := p; t_once := t_once t |}.
-Definition with_once t := {| t_addr := t_addr t; t_obj := t_obj t; t_pc := t_pc t; t_once := true |}.
+Definition with_pc t p := {| t_addr := t_addr t; t_obj := t_obj t; t_pc := p; t_run := t_run t; t_once := t_once t |}.
+Definition with_once t := {| t_addr := t_addr t; t_obj := t_obj t; t_pc := t_pc t; t_run := t_run t; t_once := true |}.
+Definition with_run t := {| t_addr := t_addr t; t_obj := t_obj t; t_pc := t_pc t; t_run := true; t_once := t_once t |}.
 
 (** [Manager.remove(addr)], called with m.mu held:
 <<
@@ -151,6 +155,7 @@ Inductive label :=
 | LFailReady (c : nat)
 | LPass (i : nat)
 | LWait (i : nat)
+| LRelBegin (i : nat)
 | LRelease (i : nat)
 | LCancel (i : nat).
 
@@ -168,21 +173,21 @@ Definition step (s : state) (l : label) : option state :=
           let s0 := set_tids s (i :: tids s) in
           if cancelled s i then
             (* case <-ctx.Done(): return nil, func(){}, ctx.Err() *)
-            Some (set_thread s0 i {| t_addr := a; t_obj := None; t_pc := PRet (RErr ErrCtx); t_once := false |})
+            Some (set_thread s0 i {| t_addr := a; t_obj := None; t_pc := PRet (RErr ErrCtx); t_run := false; t_once := false |})
           else
             match conns s a with
             | Some cid =>
                 match objs s cid with
                 | Some o =>
                     Some (set_thread (set_obj s0 cid (with_ref o (c_ref o + 1))) i
-                            {| t_addr := a; t_obj := Some cid; t_pc := PJoined; t_once := false |})
+                            {| t_addr := a; t_obj := Some cid; t_pc := PJoined; t_run := false; t_once := false |})
                 | None => None
                 end
             | None =>
                 (* c = newConnection(addr); m.conns[addr] = c; go m.dial(...); c.ref++ *)
                 let o := with_ref (new_conn a known) 1 in
                 Some (set_thread (set_obj (set_conns s0 (upd (conns s) a (Some i))) i o) i
-                        {| t_addr := a; t_obj := Some i; t_pc := PJoined; t_once := false |})
+                        {| t_addr := a; t_obj := Some i; t_pc := PJoined; t_run := false; t_once := false |})
             end
       | _, _ => None
       end
@@ -267,13 +272,32 @@ Definition step (s : state) (l : label) : option state :=
           end
       | None => None
       end
+  | LRelBegin i =>
+      (* some goroutine calls the done function of thread i: the check-and-set
+         of once.Do.  Only the first caller goes on to run the function; a
+         caller that finds the Once entered has no effect (sync.Once makes it
+         wait until the first caller's function has returned). *)
+      match thr s i with
+      | Some t =>
+          match t_pc t, t_obj t with
+          | PRet (RErr _), _ => Some s                     (* func(){} *)
+          | PRet (RConn _), Some _ =>
+              if t_once t || t_run t then Some s
+              else Some (set_thread s i (with_run t))
+          | _, _ => None
+          end
+      | None => None
+      end
   | LRelease i =>
+      (* the function under the Once, run by the caller that entered it:
+         m.mu.Lock(); c.ref--; if c.ref <= 0 { m.remove(c.id) }; m.mu.Unlock() *)
       match thr s i with
       | Some t =>
           match t_pc t, t_obj t with
           | PRet (RErr _), _ => Some s                     (* func(){} *)
           | PRet (RConn _), Some c =>
-              if t_once t then Some s                      (* once.Do: already done *)
+              if t_once t then Some s                      (* already run *)
+              else if negb (t_run t) then None             (* nobody has entered the Once *)
               else
                 match objs s c with
                 | Some o =>
